@@ -1,4 +1,5 @@
-/* C09 harnesses: ticket arithmetic (all 2^64 tickets) and the ticket-claim loops under rely/guarantee. */
+/* C09 harnesses: ticket arithmetic (all 2^64 tickets), the ticket-claim loops under rely/guarantee (CLAIM, WAKE), one lane (micro_queue) under rely/guarantee
+   (LANE, LANESEQ), the queue representation (REP). */
 #include "verif.h"
 typedef size_t size_type; typedef size_t ticket_type;
 #define n_queue ((size_type)8)
@@ -181,15 +182,19 @@ void h_wake_popif(void) {
 
 #ifdef LANE
 /* ---- micro_queue: one lane.  push / prepare_page / spin_wait_until_my_turn / pop / assign_and_destroy_item / micro_queue_pop_finalizer ----------------
-   Rely/guarantee proof of ONE call (the push or the pop of an arbitrary ticket: page g_pg of the lane, slot g_idx, any of the six page-size classes) against
+   Rely/guarantee proof of ONE call (the push or the pop of an arbitrary ticket: some page of the lane, slot g_idx, any of the six page-size classes) against
    any number of other pushes and pops of the same lane (every other ticket; tickets are unique: claim.* jobs).  Shared state: tail_counter, head_counter,
-   head_page, tail_page, page_mutex, the pages.  Pages are named by their page number (ghost); g_linked / g_unlinked count the pages ever appended to / removed
-   from the list.  The window holds the two pages this call can reach: PREVO (page g_pg-1) and CURO (page g_pg); every other page is an opaque token.
+   head_page, tail_page, page_mutex, the pages.
+   Ghost: the turn tail_counter / head_counter stand at, as (page, slot) RELATIVE to this call's page: (TP, TS) and (HP, HS); g_app / g_rem = the push in
+   progress (slot 0) has already appended its page / the pop in progress (last slot) has already removed its page.  The code sees real counter values; it
+   uses them only in equality tests with its ticket (and `c & 1`), so away from the ticket the real value is arbitrary (a multiple of n_queue other than the
+   ticket) - no wide arithmetic is needed.  The window holds the two pages this call can reach: PREVO (relative page -1) and CURO (relative page 0); every
+   other page is an opaque token.
    Every atomic operation, every lock / unlock is a step: the guarantee is checked for what this call did since the previous step, then the environment
-   runs (havoc constrained by INV and the rely).  The history the lane is compared with: gvalid[s] / gval[s] = whether the push of slot s of page g_pg
-   constructed an element, and which. */
+   runs (havoc constrained by INV and the rely).  The history the lane is compared with: gvalid[s] / gval[s] = whether the push of slot s of this call's
+   page constructed an element, and which. */
 #include "ticket.inc"
-typedef unsigned long value_type;
+typedef unsigned char value_type;
 struct padded_page { struct padded_page *next; uintptr_t mask; value_type items[32]; };
 struct micro_queue { struct padded_page *head_page; ticket_type head_counter; struct padded_page *tail_page; ticket_type tail_counter; int page_mutex; };
 struct queue_rep { size_t n_invalid_entries; };
@@ -201,108 +206,131 @@ static struct micro_queue Q; static struct queue_rep BASE; static struct padded_
 #define TOK_HI ((struct padded_page *)&tok_hi_)
 #define INVALID_PAGE ((struct padded_page *)(uintptr_t)1)
 enum { PUSH = 0, POP = 1 };
-static int g_role; static unsigned g_lg; static size_t g_pg, g_idx, g_s; static ticket_type K8; static size_t g_linked, g_unlinked;
+static int g_role; static unsigned g_lg; static size_t g_idx, g_s; static ticket_type K8;
+static long TP, HP; static size_t TS, HS; static bool g_app, g_rem;
 static bool gvalid[32]; static value_type gval[32];
-static bool g_seq;                      /* sequential scenario (no other thread): lane.pop.invalid_page */
+static bool g_seq;                      /* sequential scenario (no other thread, no lane invariant): lane.pop.invalid_page */
 static bool g_fail_alloc;               /* the page allocation of this push throws */
+static bool me_tail_passed;             /* this pop has seen tail_counter beyond its ticket (counters only grow: it stays beyond) */
 static bool me_adv, me_linked, me_unlinked, me_hold, me_private, me_destroyed, me_read_in_turn, cur_freed, g_exc;
 static unsigned n_adv, n_alloc, n_construct, n_free, n_destroy, n_lock, n_read; static long my_nie; static bool adv_bit; static value_type adv_item; static bool adv_in_turn;
-struct snap { ticket_type tc, hc; size_t linked, unlinked; struct padded_page *hp, *tp, *pn, *cn; int mutex; uintptr_t pm, cm; value_type ps, cs, ci; bool adv; };
+struct snap { ticket_type tc, hc; long linked, unlinked; struct padded_page *hp, *tp, *pn, *cn; int mutex; uintptr_t pm, cm; value_type ps, cs, ci; bool adv, t_after; };
 static struct snap S;
-#define TMAX ((size_t)1 << 50)
-#define GMAX ((size_t)1 << 44)
-#define T_ (Q.tail_counter >> 3)
-#define H_ (Q.head_counter >> 3)
-#define PAGEPTR(n) ((n) == g_pg ? &CURO : ((n) + 1 == g_pg ? &PREVO : ((n) == g_pg + 1 ? TOK_NEXT : ((n) < g_pg ? TOK_LO : TOK_HI))))
-#define U_(s) ((g_pg << g_lg) | (s))
+#define PMAXD ((long)1 << 40)
+#define LT2(p1, s1, p2, s2) ((p1) < (p2) || ((p1) == (p2) && (s1) < (s2)))
+#define LE2(p1, s1, p2, s2) ((p1) < (p2) || ((p1) == (p2) && (s1) <= (s2)))
+#define T_AT_ME (TP == 0 && TS == g_idx)
+#define H_AT_ME (HP == 0 && HS == g_idx)
+#define T_AFTER_ME LT2(0, g_idx, TP, TS)
+#define H_AFTER_ME LT2(0, g_idx, HP, HS)
+#define LAST_ (items_per_page - 1)
+/* number of pages ever appended to / removed from the lane's list, relative to this call's page: a page is appended during the turn of its slot 0 and removed during the turn of its last slot */
+#define LINKED_D (TP + (TS != 0 ? 1 : 0) + (g_app ? 1 : 0))
+#define UNLINKED_D (HP + (g_rem ? 1 : 0))
+#define LIVE_(d) (UNLINKED_D <= (d) && (d) < LINKED_D)
+#define PAGEPTR(d) ((d) == 0 ? &CURO : ((d) == -1 ? &PREVO : ((d) == 1 ? TOK_NEXT : ((d) < 0 ? TOK_LO : TOK_HI))))
 #define BIT_(s) ((CURO.mask >> (s)) & 1)
-#define LIVE_(n) (g_unlinked <= (n) && (n) < g_linked)
-/* counters: multiples of n_queue (no failed page allocation so far: assumption of these jobs), head never passes tail */
-#define INV_COUNTERS ((Q.tail_counter & 7) == 0 && (Q.head_counter & 7) == 0 && H_ <= T_ && T_ < TMAX && g_unlinked <= g_linked && g_linked < GMAX)
-/* page p is appended during turn p*ipp (slot 0) and removed during turn p*ipp+ipp-1 (last slot), which starts only after that slot was pushed */
-#define INV_BOUNDS ((g_linked << g_lg) >= T_ && (g_linked == 0 || ((g_linked - 1) << g_lg) <= T_) && (g_unlinked << g_lg) <= H_ + 1 && (g_unlinked << g_lg) <= T_ && ((g_unlinked + 1) << g_lg) > H_)
-/* what only this call can do has not happened unless this call did it (tickets are unique) */
-#define INV_ME ((g_role != PUSH || (me_adv ? Q.tail_counter > K8 : Q.tail_counter <= K8)) && (g_role != PUSH || g_idx != 0 || me_linked || g_linked <= g_pg) \
-             && (g_role != POP || (me_adv ? Q.head_counter > K8 : Q.head_counter <= K8)) && (g_role != POP || g_idx != items_per_page - 1 || me_unlinked || g_unlinked <= g_pg))
-/* what the two lock-free reads depend on, at every instant (also while somebody is inside a page_mutex section) */
-#define INV_READERS ((!(T_ > H_ && g_unlinked == (H_ >> g_lg)) || Q.head_page == PAGEPTR(H_ >> g_lg)) && ((T_ & (items_per_page - 1)) == 0 || Q.tail_page == PAGEPTR(T_ >> g_lg)))
+/* counters: head never passes tail; the real counters are multiples of n_queue (no failed page allocation so far: assumption of these jobs) and equal the ticket exactly in the ticket's turn */
+#define INV_COUNTERS (TS < items_per_page && HS < items_per_page && LE2(HP, HS, TP, TS) && -PMAXD < HP && TP < PMAXD && (Q.tail_counter & 7) == 0 && (Q.head_counter & 7) == 0 \
+             && (Q.tail_counter == K8) == T_AT_ME && (Q.head_counter == K8) == H_AT_ME)
+/* a page is appended only during the turn of its slot 0, removed only during the turn of its last slot, which starts only after that slot was pushed */
+#define INV_BOUNDS ((!g_app || TS == 0) && (!g_rem || (HS == LAST_ && LT2(HP, HS, TP, TS))))
+/* what only this call can do has not happened unless this call did it (tickets are unique); a counter seen beyond the ticket stays beyond it */
+#define INV_ME ((g_role != PUSH || (me_adv ? T_AFTER_ME : !T_AFTER_ME)) && (g_role != PUSH || g_idx != 0 || me_linked || LINKED_D <= 0) \
+             && (g_role != POP || (me_adv ? H_AFTER_ME : !H_AFTER_ME)) && (g_role != POP || g_idx != LAST_ || me_unlinked || UNLINKED_D <= 0) && (!me_tail_passed || T_AFTER_ME))
+/* what the two lock-free reads depend on, at every instant (also while somebody is inside a page_mutex section):
+   head_page is the oldest page not yet removed as soon as that page has been appended; tail_page is the page of the ticket being pushed unless that page is still to be appended */
+#define INV_READERS ((UNLINKED_D >= LINKED_D || Q.head_page == PAGEPTR(UNLINKED_D)) && ((TS == 0 && !g_app) || Q.tail_page == PAGEPTR(LINKED_D - 1)))
 /* the list, whenever nobody is inside a page_mutex section */
-#define INV_LIST (Q.page_mutex != 0 || (Q.head_page == (g_unlinked < g_linked ? PAGEPTR(g_unlinked) : NULL) && Q.tail_page == (g_unlinked < g_linked ? PAGEPTR(g_linked - 1) : NULL) \
-             && (!(g_pg >= 1 && LIVE_(g_pg - 1)) || PREVO.next == (g_pg < g_linked ? &CURO : NULL)) && (!LIVE_(g_pg) || CURO.next == (g_pg + 1 < g_linked ? TOK_NEXT : NULL))))
-/* a cell of page g_pg: pushed (turn below tail): mask bit says whether an element was constructed, and the element is there until its pop's turn; not yet pushed: bit clear */
-#define CELL_(s) (!LIVE_(g_pg) || (U_(s) < T_ ? (BIT_(s) == (uintptr_t)gvalid[s] && (!gvalid[s] || !(U_(s) > H_ || (U_(s) == H_ && g_role == POP && (s) == g_idx && !me_destroyed)) || CURO.items[s] == gval[s])) \
-                                 : (U_(s) == T_ ? (BIT_(s) == 0 || gvalid[s]) : BIT_(s) == 0)))
+#define INV_LIST (Q.page_mutex != 0 || (Q.head_page == (UNLINKED_D < LINKED_D ? PAGEPTR(UNLINKED_D) : NULL) && Q.tail_page == (UNLINKED_D < LINKED_D ? PAGEPTR(LINKED_D - 1) : NULL) \
+             && (!LIVE_(-1) || PREVO.next == (0 < LINKED_D ? &CURO : NULL)) && (!LIVE_(0) || CURO.next == (1 < LINKED_D ? TOK_NEXT : NULL))))
+/* a cell of this call's page: pushed (turn below tail): the mask bit says whether an element was constructed, and the element is there until its pop's turn; not yet pushed: bit clear */
+#define PUSHED_(s) (TP > 0 || (TP == 0 && (s) < TS))
+#define UNPOPPED_(s) (HP < 0 || (HP == 0 && HS < (s)) || (HP == 0 && HS == (s) && g_role == POP && (s) == g_idx && !me_destroyed))
+#define CELL_(s) (!LIVE_(0) || (PUSHED_(s) ? (BIT_(s) == (uintptr_t)gvalid[s] && (!gvalid[s] || !UNPOPPED_(s) || CURO.items[s] == gval[s])) : ((TP == 0 && TS == (s)) ? (BIT_(s) == 0 || gvalid[s]) : BIT_(s) == 0)))
 #define INV (INV_COUNTERS && INV_BOUNDS && INV_ME && INV_READERS && INV_LIST && CELL_(g_idx) && CELL_(g_s))
-#define SNAP_CUR (S.tc == Q.tail_counter && S.hc == Q.head_counter && S.linked == g_linked && S.unlinked == g_unlinked && S.hp == Q.head_page && S.tp == Q.tail_page && S.pn == PREVO.next && S.cn == CURO.next \
-             && S.mutex == Q.page_mutex && S.pm == PREVO.mask && S.cm == CURO.mask && S.ps == PREVO.items[g_s] && S.cs == CURO.items[g_s] && S.ci == CURO.items[g_idx] && S.adv == me_adv)
+#define SNAP_CUR (S.tc == Q.tail_counter && S.hc == Q.head_counter && S.linked == LINKED_D && S.unlinked == UNLINKED_D && S.hp == Q.head_page && S.tp == Q.tail_page && S.pn == PREVO.next && S.cn == CURO.next \
+             && S.mutex == Q.page_mutex && S.pm == PREVO.mask && S.cm == CURO.mask && S.ps == PREVO.items[g_s] && S.cs == CURO.items[g_s] && S.ci == CURO.items[g_idx] && S.adv == me_adv && S.t_after == T_AFTER_ME)
 static void capture(struct snap *s) {
-    s->tc = Q.tail_counter; s->hc = Q.head_counter; s->linked = g_linked; s->unlinked = g_unlinked; s->hp = Q.head_page; s->tp = Q.tail_page; s->pn = PREVO.next; s->cn = CURO.next;
-    s->mutex = Q.page_mutex; s->pm = PREVO.mask; s->cm = CURO.mask; s->ps = PREVO.items[g_s]; s->cs = CURO.items[g_s]; s->ci = CURO.items[g_idx]; s->adv = me_adv;
+    s->tc = Q.tail_counter; s->hc = Q.head_counter; s->linked = LINKED_D; s->unlinked = UNLINKED_D; s->hp = Q.head_page; s->tp = Q.tail_page; s->pn = PREVO.next; s->cn = CURO.next;
+    s->mutex = Q.page_mutex; s->pm = PREVO.mask; s->cm = CURO.mask; s->ps = PREVO.items[g_s]; s->cs = CURO.items[g_s]; s->ci = CURO.items[g_idx]; s->adv = me_adv; s->t_after = T_AFTER_ME;
 }
 struct padded_page nondet_page(void);
-/* rely: what the other pushes and pops of the lane can do in any number of steps, given what this call holds */
-static bool rely(const struct snap *o) {
-    if (!(Q.tail_counter >= o->tc && Q.head_counter >= o->hc && g_linked >= o->linked && g_unlinked >= o->unlinked)) return false;         /* counters only grow */
-    if (me_hold && !(Q.page_mutex == 1 && Q.head_page == o->hp && Q.tail_page == o->tp && g_linked == o->linked && g_unlinked == o->unlinked && CURO.next == o->cn)) return false;   /* page_mutex */
-    if (me_hold && g_pg >= 1 && LIVE_(g_pg - 1) && PREVO.next != o->pn) return false;
-    if (!me_hold && Q.page_mutex == 1) return false;
-    /* the push whose turn it is owns the mask word and its cell until it hands the turn on */
-    if (g_role == PUSH && o->tc == K8 && !me_adv && o->unlinked <= g_pg && g_pg < o->linked && !(CURO.mask == o->cm && CURO.items[g_idx] == o->ci)) return false;
-    return true;
-}
 /* guarantee: what this call did since the previous step is something the rely of every other call allows */
 static void guarantee_check(void) {
-    __CPROVER_assert(INV_COUNTERS && INV_BOUNDS, "guarantee: the lane's counters stay multiples of n_queue with head <= tail, and the page list covers exactly the pages with a pushed or in-progress slot that are not yet consumed");
-    __CPROVER_assert(INV_ME, "guarantee: a counter is moved past a ticket only by the call that holds the ticket");
-    __CPROVER_assert(INV_READERS, "guarantee: head_page is the page of the oldest unconsumed ticket whenever a pop can read it without the lock, tail_page the page of the ticket being pushed whenever a push reads it without the lock");
-    __CPROVER_assert(INV_LIST, "guarantee: outside page_mutex sections head_page .. tail_page is the list of the linked, unconsumed pages in page order, null when there is none");
+    if (g_seq) return;
+    __CPROVER_assert(INV_COUNTERS && INV_BOUNDS, "guarantee: the lane's counters stay multiples of n_queue with head <= tail; a page is appended only in the turn of its slot 0 and removed only in the turn of its last slot");
+    __CPROVER_assert(INV_ME, "guarantee: a counter is moved past a ticket, and the page of a turn appended / removed, only by the call that holds the ticket");
+    __CPROVER_assert(INV_READERS, "guarantee: at every instant head_page is the oldest page not yet removed as soon as that page is appended (what a pop reads without the lock), and tail_page the page of the ticket being pushed once that page is appended (what a push reads without the lock)");
+    __CPROVER_assert(INV_LIST, "guarantee: outside page_mutex sections head_page .. tail_page is the list of the appended, unconsumed pages in page order, null when there is none");
     __CPROVER_assert(CELL_(g_idx) && CELL_(g_s), "guarantee: a pushed cell's mask bit tells whether an element was constructed and the element stays until its own pop; the bit of a cell not yet pushed is clear");
     bool listsame = Q.head_page == S.hp && Q.tail_page == S.tp && PREVO.next == S.pn && (CURO.next == S.cn || me_private);
     __CPROVER_assert(listsame || S.mutex == 1, "guarantee: head_page, tail_page and the next links are written only inside a page_mutex section");
     __CPROVER_assert(PREVO.mask == S.pm && PREVO.items[g_s] == S.ps, "guarantee: the cells of another page are not touched");
     if (g_role == PUSH) {
-        __CPROVER_assert(Q.head_counter == S.hc && g_unlinked == S.unlinked, "guarantee: a push never moves head_counter and never removes a page");
+        __CPROVER_assert(Q.head_counter == S.hc && UNLINKED_D == S.unlinked, "guarantee: a push never moves head_counter and never removes a page");
         __CPROVER_assert(Q.tail_counter == S.tc || (S.tc == K8 && !S.adv && Q.tail_counter == K8 + n_queue && n_adv == 1), "guarantee: tail_counter is advanced only in the ticket's own turn, by exactly n_queue, once");
         __CPROVER_assert(me_private || (((CURO.mask ^ S.cm) & ~((uintptr_t)1 << g_idx)) == 0 && (g_s == g_idx || CURO.items[g_s] == S.cs)), "guarantee: a push writes no cell and no mask bit but its own");
         __CPROVER_assert(me_private || (CURO.mask == S.cm && CURO.items[g_idx] == S.ci) || (S.tc == K8 && !S.adv), "guarantee: a push writes its cell and its mask bit only during its own turn");
     } else {
-        __CPROVER_assert(Q.tail_counter == S.tc && g_linked == S.linked, "guarantee: a pop never moves tail_counter and never appends a page");
-        __CPROVER_assert(Q.head_counter == S.hc || (S.hc == K8 && !S.adv && Q.tail_counter > K8 && Q.head_counter == K8 + n_queue && n_adv == 1), "guarantee: head_counter is advanced only in the ticket's own turn, after the push of the same ticket, by exactly n_queue, once");
+        __CPROVER_assert(Q.tail_counter == S.tc && LINKED_D == S.linked, "guarantee: a pop never moves tail_counter and never appends a page");
+        __CPROVER_assert(Q.head_counter == S.hc || (S.hc == K8 && !S.adv && S.t_after && Q.head_counter == K8 + n_queue && n_adv == 1), "guarantee: head_counter is advanced only in the ticket's own turn, after the push of the same ticket, by exactly n_queue, once");
         __CPROVER_assert(CURO.mask == S.cm && (g_s == g_idx || CURO.items[g_s] == S.cs), "guarantee: a pop changes no mask bit and no cell but its own");
-        __CPROVER_assert(CURO.items[g_idx] == S.ci || (S.hc == K8 && !S.adv && S.tc > K8), "guarantee: a pop takes its cell only during its own turn");
+        __CPROVER_assert(CURO.items[g_idx] == S.ci || (S.hc == K8 && !S.adv && S.t_after), "guarantee: a pop takes its cell only during its own turn, after the push of the same ticket");
     }
 }
+/* rely: what the other pushes and pops of the lane can do, in any number of steps, given what this call holds.  Everything is havocked under INV except:
+   - the counter whose turn is this call's, and whether that turn's page operation has happened (only the ticket holder moves a counter past its ticket and
+     appends / removes the page of its turn; tickets are unique);
+   - while this call is inside a page_mutex section: head_page, tail_page, the next links of linked pages, and the page counts;
+   - during the turn of a push: the mask word and the cell of its slot (pops of the page only read other bits / cells; the next push waits for the turn);
+   - a page that is still private to this call.
+   Two-state facts the proofs need are kept as one-state facts in INV_ME (a counter that was seen beyond the ticket stays beyond it). */
 static void env(void) {
     if (g_seq) return;
-    struct snap o; capture(&o);
-    Q.tail_counter = nondet_size_t(); Q.head_counter = nondet_size_t(); Q.head_page = nondet_ptr(); Q.tail_page = nondet_ptr(); g_linked = nondet_size_t(); g_unlinked = nondet_size_t();
-    Q.page_mutex = me_hold ? 1 : (nondet_bool() ? 2 : 0); BASE.n_invalid_entries = nondet_size_t();
-    PREVO = nondet_page(); if (!me_private) CURO = nondet_page();
-    __CPROVER_assume(INV); __CPROVER_assume(rely(&o));
+    long o_linked = LINKED_D, o_unlinked = UNLINKED_D; bool prevlive = LIVE_(-1), curlive = LIVE_(0);
+    bool my_turn_push = g_role == PUSH && !me_adv && T_AT_ME, my_turn_pop = g_role == POP && !me_adv && H_AT_ME;
+    struct padded_page *pn = PREVO.next, *cn = CURO.next; uintptr_t cm = CURO.mask; value_type ci = CURO.items[g_idx];
+    if (!my_turn_push) { TP = nondet_long(); TS = nondet_size_t(); g_app = nondet_bool(); }
+    if (!my_turn_pop) { HP = nondet_long(); HS = nondet_size_t(); g_rem = nondet_bool(); }
+    ticket_type ot = nondet_size_t(), oh = nondet_size_t(); __CPROVER_assume((ot & 7) == 0 && ot != K8 && (oh & 7) == 0 && oh != K8);
+    Q.tail_counter = T_AT_ME ? K8 : ot; Q.head_counter = H_AT_ME ? K8 : oh;
+    BASE.n_invalid_entries = nondet_size_t();
+    if (!me_hold) { Q.head_page = nondet_ptr(); Q.tail_page = nondet_ptr(); Q.page_mutex = nondet_bool() ? 2 : 0; }
+    PREVO = nondet_page(); if (me_hold && prevlive) PREVO.next = pn;
+    if (!me_private) { CURO = nondet_page(); if (me_hold) CURO.next = cn; if (my_turn_push && curlive) { CURO.mask = cm; CURO.items[g_idx] = ci; } }
+    __CPROVER_assume(INV);
+    if (me_hold) __CPROVER_assume(LINKED_D == o_linked && UNLINKED_D == o_unlinked);
 }
 static void step(void) { guarantee_check(); env(); capture(&S); }
+static void sync(void) { guarantee_check(); capture(&S); }    /* a plain write by a stub: checked at once, so that S is current when a spin loop is entered */
 static void lock_mutex(int *m) { guarantee_check(); env(); __CPROVER_assert(!me_hold, "C09.page: page_mutex is not taken twice by the same call"); __CPROVER_assume(*m == 0); *m = 1; me_hold = true; n_lock++; capture(&S); }
 static void unlock_mutex(int *m) {
     step(); __CPROVER_assert(me_hold && *m == 1, "C09.page: only the holder releases page_mutex");
-    if (g_role == PUSH && !me_linked && !g_exc) { g_linked++; me_linked = true; me_private = false; }   /* ghost: the section appended this call's page */
+    if (g_role == PUSH && !me_linked && !g_exc) { g_app = true; me_linked = true; me_private = false; }   /* ghost: the section appended this call's page */
     *m = 0; me_hold = false; guarantee_check(); capture(&S);
 }
 #define LOCK_MUTEX(m) lock_mutex(&(m))
 #define UNLOCK_MUTEX(m) unlock_mutex(&(m))
 static void on_write(void *a, long d) {
-    if (a == (void *)&Q.tail_counter || a == (void *)&Q.head_counter) { n_adv++; me_adv = true; adv_bit = BIT_(g_idx) != 0; adv_item = CURO.items[g_idx];
-        adv_in_turn = (a == (void *)&Q.tail_counter ? Q.tail_counter : Q.head_counter) == K8; }
+    if (a == (void *)&Q.tail_counter || a == (void *)&Q.head_counter) {
+        n_adv++; me_adv = true; adv_bit = BIT_(g_idx) != 0; adv_item = CURO.items[g_idx];
+        /* ghost: the turn moves on */
+        if (a == (void *)&Q.tail_counter) { adv_in_turn = Q.tail_counter == K8; g_app = false; if (TS + 1 == items_per_page) { TP++; TS = 0; } else TS++; }
+        else { adv_in_turn = Q.head_counter == K8; g_rem = false; if (HS + 1 == items_per_page) { HP++; HS = 0; } else HS++; }
+    }
     if (a == (void *)&BASE.n_invalid_entries) my_nie += d;
 }
-static void after_write(void *a) { if (a == (void *)&Q.head_page && g_role == POP && me_hold && !me_unlinked) { g_unlinked++; me_unlinked = true; } }   /* ghost: the section removed this call's page */
-#define ATOMIC_LOAD_AT(site, f) ({ step(); (f); })
+static void after_write(void *a) { if (a == (void *)&Q.head_page && g_role == POP && me_hold && !me_unlinked) { g_rem = true; me_unlinked = true; } }   /* ghost: the section removed this call's page */
+static void note_load(void *a) { if (a == (void *)&Q.tail_counter && g_role == POP && Q.tail_counter != K8 && H_AT_ME) me_tail_passed = true; }   /* head <= tail, head at the ticket, tail not at it: beyond */
+#define ATOMIC_LOAD_AT(site, f) ({ step(); note_load((void *)&(f)); (f); })
 #define ATOMIC_STORE_AT(site, f, v) ({ __typeof__(f) v_ = (v); step(); on_write((void *)&(f), 0); (f) = v_; after_write((void *)&(f)); (void)0; })
 #define ATOMIC_FETCH_ADD_AT(site, f, v) ({ __typeof__(f) a_ = (v); step(); on_write((void *)&(f), 0); __typeof__(f) o_ = (f); (f) = o_ + a_; o_; })
 #define ATOMIC_PREINC_AT(site, f) ({ step(); on_write((void *)&(f), 1); ++(f); })
 #define ATOMIC_PREDEC_AT(site, f) ({ step(); on_write((void *)&(f), -1); --(f); })
 static struct padded_page *page_access(const struct padded_page *p) {
-    bool cur_ok = p == &CURO && !cur_freed && (me_private || LIVE_(g_pg) || (g_role == POP && me_unlinked));
-    bool prev_ok = p == &PREVO && g_pg >= 1 && LIVE_(g_pg - 1);
+    bool cur_ok = p == &CURO && !cur_freed && (g_seq || me_private || LIVE_(0) || (g_role == POP && me_unlinked));
+    bool prev_ok = p == &PREVO && LIVE_(-1);
     __CPROVER_assert(cur_ok || prev_ok, "C09.page: a page is touched only while it is certain to exist (linked and not yet retired, or still private to this call) - never a null, invalid, foreign or possibly freed page");
     return p == &PREVO ? &PREVO : &CURO;
 }
@@ -317,59 +345,59 @@ static struct padded_page *page_access(const struct padded_page *p) {
 static struct padded_page *STUB_page_allocate(void) {
     __CPROVER_assert(g_role == PUSH && g_idx == 0 && n_alloc == 0, "C09.page: a page is allocated exactly by the push that takes slot 0 of that page, once");
     n_alloc++; if (g_fail_alloc) { g_exc = true; return NULL; }
-    CURO = nondet_page(); me_private = true; return &CURO;
+    CURO = nondet_page(); me_private = true; sync(); return &CURO;
 }
-static void STUB_page_construct(struct padded_page *p) { __CPROVER_assert(p == &CURO && me_private, "C09.page: the page constructed is the one just allocated"); CURO.next = NULL; CURO.mask = 0; }
+static void STUB_page_construct(struct padded_page *p) { __CPROVER_assert(p == &CURO && me_private, "C09.page: the page constructed is the one just allocated"); CURO.next = NULL; CURO.mask = 0; sync(); }
 static void STUB_construct_item(value_type *loc, const value_type *args) {
     n_construct++;
     __CPROVER_assert(loc == &CURO.items[g_idx], "C09.cell: the element of ticket k is constructed in page (k / n_queue) / items_per_page of its lane, slot (k / n_queue) mod items_per_page");
-    __CPROVER_assert(Q.tail_counter == K8 && !me_adv && LIVE_(g_pg), "C09.turnstile: the element is constructed only during the ticket's own turn (tail_counter == k & -n_queue), in a page that is linked into the lane");
+    __CPROVER_assert(Q.tail_counter == K8 && !me_adv && LIVE_(0), "C09.turnstile: the element is constructed only during the ticket's own turn (tail_counter == k & -n_queue), in a page that is linked into the lane");
     if (!gvalid[g_idx]) { g_exc = true; return; }     /* the element constructor throws */
-    CURO.items[g_idx] = *args;
+    CURO.items[g_idx] = *args; sync();
 }
-static value_type *note_read(value_type *from) { n_read++; me_read_in_turn = Q.head_counter == K8 && !me_adv && Q.tail_counter > K8 && from == &CURO.items[g_idx]; return from; }
+static value_type *note_read(value_type *from) { n_read++; me_read_in_turn = Q.head_counter == K8 && !me_adv && (g_seq || T_AFTER_ME) && from == &CURO.items[g_idx]; return from; }
 #define MOVE_FROM(from) (*note_read(from))
 #define DESTROYER_CTOR(x) value_type *destroyer_my_value_ = (x)
 #define DESTROYER_DTOR(x) STUB_destroy_item(destroyer_my_value_)
-static void STUB_destroy_item(value_type *loc) { __CPROVER_assert(loc == &CURO.items[g_idx] && Q.head_counter == K8 && !me_adv, "C09.cell: the element destroyed is the one of the popped ticket, in the ticket's own turn"); n_destroy++; me_destroyed = true; *loc = nondet_ulong(); }
+static void STUB_destroy_item(value_type *loc) { __CPROVER_assert(loc == &CURO.items[g_idx] && Q.head_counter == K8 && !me_adv, "C09.cell: the element destroyed is the one of the popped ticket, in the ticket's own turn"); n_destroy++; me_destroyed = true; *loc = nondet_uchar(); sync(); }
 static void STUB_page_destroy(struct padded_page *p) { }
 static void STUB_page_deallocate(struct padded_page *p) {
-    __CPROVER_assert(p == &CURO && g_role == POP && g_idx == items_per_page - 1 && me_unlinked && !cur_freed, "C09.page: a page is freed only by the pop of its last slot, after that pop removed it from the lane's list, once");
+    __CPROVER_assert(p == &CURO && g_role == POP && g_idx == LAST_ && me_unlinked && !cur_freed, "C09.page: a page is freed only by the pop of its last slot, after that pop removed it from the lane's list, once");
     n_free++; cur_freed = true;
 }
-#define LANE_ASSIGNS Q, BASE, g_linked, g_unlinked, PREVO, CURO, S
-/* the rely is transitive: whatever the environment did during a spin loop, the counters did not go back */
-#define RELY_SINCE_ENTRY (Q.tail_counter >= __CPROVER_loop_entry(Q.tail_counter) && Q.head_counter >= __CPROVER_loop_entry(Q.head_counter) && g_linked >= __CPROVER_loop_entry(g_linked) && g_unlinked >= __CPROVER_loop_entry(g_unlinked))
-#define LOOP_turn_1 __CPROVER_assigns(LANE_ASSIGNS, my_nie, g_exc) __CPROVER_loop_invariant(INV && SNAP_CUR && RELY_SINCE_ENTRY && !g_exc && my_nie == __CPROVER_loop_entry(my_nie))
-#define LOOP_swweq_1 __CPROVER_assigns(LANE_ASSIGNS, snapshot) __CPROVER_loop_invariant(INV && SNAP_CUR && RELY_SINCE_ENTRY && snapshot == *location)
-#define LOOP_swueq_1 __CPROVER_assigns(LANE_ASSIGNS, snapshot) __CPROVER_loop_invariant(INV && SNAP_CUR && RELY_SINCE_ENTRY && snapshot == *location)
+#define LANE_ASSIGNS Q, BASE, TP, TS, HP, HS, g_app, g_rem, PREVO, CURO, S, me_tail_passed
+/* spin loops: the environment runs in every iteration; what env() keeps fixed is restated against the loop-entry state */
+#define KEPT_SINCE_ENTRY ((g_role != POP || me_adv || __CPROVER_loop_entry(Q.head_counter) != K8 || (Q.head_counter == K8 && g_rem == __CPROVER_loop_entry(g_rem))) \
+  && (g_role != PUSH || me_adv || __CPROVER_loop_entry(Q.tail_counter) != K8 || (Q.tail_counter == K8 && g_app == __CPROVER_loop_entry(g_app))) \
+  && (!me_private || (CURO.next == __CPROVER_loop_entry(CURO.next) && CURO.mask == __CPROVER_loop_entry(CURO.mask))))
+#define LOOP_turn_1 __CPROVER_assigns(LANE_ASSIGNS, my_nie, g_exc) __CPROVER_loop_invariant(INV && SNAP_CUR && KEPT_SINCE_ENTRY && !g_exc && my_nie == __CPROVER_loop_entry(my_nie))
+#define LOOP_swweq_1 __CPROVER_assigns(LANE_ASSIGNS, snapshot) __CPROVER_loop_invariant(INV && SNAP_CUR && KEPT_SINCE_ENTRY && snapshot == *location && (location != &Q.tail_counter || g_role != POP || snapshot == K8 || !H_AT_ME || me_tail_passed))
+#define LOOP_swueq_1 __CPROVER_assigns(LANE_ASSIGNS, snapshot) __CPROVER_loop_invariant(INV && SNAP_CUR && KEPT_SINCE_ENTRY && snapshot == *location)
 #include "lane.inc"
-size_t IN_lg, IN_pg, IN_idx, IN_lowbits;
+size_t IN_lg, IN_idx, IN_lowbits;
 static ticket_type lane_init(int role) {
     g_role = role; g_lg = nondet_unsigned(); __CPROVER_assume(g_lg <= 5);
-#ifdef LANE_LG
-    g_lg = LANE_LG;
-#endif
     items_per_page = (size_type)1 << g_lg; IN_lg = g_lg;
     OBLIGATION(items_per_page == items_per_page_of((size_t)1 << (8 - g_lg)), "C09.slot: the six page-size classes are items_per_page = 1, 2, 4, 8, 16, 32");
-    g_pg = IN_pg = nondet_size_t(); g_idx = IN_idx = nondet_size_t(); g_s = nondet_size_t(); __CPROVER_assume(g_pg < ((size_t)1 << 40) && g_idx < items_per_page && g_s < items_per_page);
-    K8 = ((g_pg << g_lg) | g_idx) << 3;
-    for (unsigned i = 0; i < 32; ++i) { gvalid[i] = nondet_bool(); gval[i] = nondet_ulong(); }
-    me_adv = me_linked = me_unlinked = me_hold = me_private = me_destroyed = me_read_in_turn = cur_freed = g_exc = false; n_adv = n_alloc = n_construct = n_free = n_destroy = n_lock = n_read = 0; my_nie = 0;
-    Q.tail_counter = nondet_size_t(); Q.head_counter = nondet_size_t(); Q.head_page = nondet_ptr(); Q.tail_page = nondet_ptr(); g_linked = nondet_size_t(); g_unlinked = nondet_size_t();
+    size_t pg = nondet_size_t(); g_idx = IN_idx = nondet_size_t(); g_s = nondet_size_t(); __CPROVER_assume(pg < ((size_t)1 << 50) && g_idx < items_per_page && g_s < items_per_page);
+    K8 = ((pg << g_lg) | g_idx) << 3;         /* the lane ticket (low bits cleared): absolute page pg, slot g_idx */
+    for (unsigned i = 0; i < 32; ++i) { gvalid[i] = nondet_bool(); gval[i] = nondet_uchar(); }
+    me_tail_passed = me_adv = me_linked = me_unlinked = me_hold = me_private = me_destroyed = me_read_in_turn = cur_freed = g_exc = false; n_adv = n_alloc = n_construct = n_free = n_destroy = n_lock = n_read = 0; my_nie = 0;
+    TP = nondet_long(); TS = nondet_size_t(); HP = nondet_long(); HS = nondet_size_t(); g_app = nondet_bool(); g_rem = nondet_bool();
+    Q.tail_counter = nondet_size_t(); Q.head_counter = nondet_size_t(); Q.head_page = nondet_ptr(); Q.tail_page = nondet_ptr();
     Q.page_mutex = nondet_bool() ? 2 : 0; BASE.n_invalid_entries = nondet_size_t(); PREVO = nondet_page(); CURO = nondet_page();
     __CPROVER_assume(INV); capture(&S);
     size_t r = IN_lowbits = nondet_size_t(); __CPROVER_assume(r < n_queue);
     return K8 | r;      /* the global ticket: its low bits select the lane and are masked off by push / pop */
 }
 void h_lane_push(void) {
-    ticket_type k = lane_init(PUSH); g_fail_alloc = false; g_seq = false;
+    g_fail_alloc = false; g_seq = false; ticket_type k = lane_init(PUSH);
     value_type v = gval[g_idx];
     mq_push(&Q, k, &BASE, NULL, &v);
     guarantee_check();
     OBLIGATION(g_exc == !gvalid[g_idx], "C09.fault: push leaves by exception exactly if the element constructor threw");
     OBLIGATION(n_construct == 1, "C09.cell: exactly one element construction per push");
-    OBLIGATION(n_adv == 1 && me_adv && adv_in_turn && Q.tail_counter >= K8 + n_queue, "C09.turnstile: a push hands the lane's turn on exactly once (tail_counter += n_queue, in its own turn) - also when the element constructor throws, so the lane is never blocked");
+    OBLIGATION(n_adv == 1 && me_adv && adv_in_turn, "C09.turnstile: a push hands the lane's turn on exactly once (tail_counter += n_queue, in its own turn) - also when the element constructor throws, so the lane is never blocked");
     OBLIGATION(adv_bit == gvalid[g_idx], "C09.cell: when the turn is handed on the slot's mask bit is set exactly if the element was constructed (a throwing constructor leaves an invalid slot)");
     OBLIGATION(!gvalid[g_idx] || adv_item == v, "C09.cell: when the turn is handed on the slot holds the pushed value");
     OBLIGATION(my_nie == (gvalid[g_idx] ? 0 : 1), "C09.fault: a push whose constructor threw is counted as exactly one invalid entry, a successful push as none");
@@ -377,10 +405,24 @@ void h_lane_push(void) {
     OBLIGATION(!me_hold && n_lock == (g_idx == 0 ? 1u : 0u), "C09.page: page_mutex is released; it is taken only to append a page");
     VACUITY_END();
 }
+/* abort_push: a bounded-queue push that gives up (abort / exception while waiting for space) after it took its ticket: the slot is consumed, left invalid */
+void h_lane_abort_push(void) {
+    g_fail_alloc = false; g_seq = false; ticket_type k = lane_init(PUSH);
+    __CPROVER_assume(!gvalid[g_idx]);          /* the history: the push of this ticket constructs nothing */
+    mq_abort_push(&Q, k, &BASE, NULL);
+    guarantee_check();
+    OBLIGATION(!g_exc && n_construct == 0, "C09.fault: an aborted push constructs no element");
+    OBLIGATION(n_adv == 1 && me_adv && adv_in_turn, "C09.turnstile: an aborted push still hands the lane's turn on exactly once (tail_counter += n_queue, in its own turn), so the lane is never blocked");
+    OBLIGATION(!adv_bit, "C09.cell: the slot of an aborted push is left invalid (mask bit clear): the pop of that ticket skips it");
+    OBLIGATION(my_nie == 1, "C09.fault: an aborted push is counted as exactly one invalid entry");
+    OBLIGATION((n_alloc == 1) == (g_idx == 0) && me_linked == (g_idx == 0) && !me_private, "C09.page: also an aborted push allocates and appends the page when its ticket takes slot 0 (the later tickets of the page rely on it)");
+    OBLIGATION(!me_hold && n_lock == (g_idx == 0 ? 1u : 0u), "C09.page: page_mutex is released; it is taken only to append a page");
+    VACUITY_END();
+}
 value_type IN_dst;
 void h_lane_pop(void) {
-    ticket_type k = lane_init(POP); g_fail_alloc = false; g_seq = false;
-    value_type dst = IN_dst = nondet_ulong(), dst0 = dst;
+    g_fail_alloc = false; g_seq = false; ticket_type k = lane_init(POP);
+    value_type dst = IN_dst = nondet_uchar(), dst0 = dst;
     bool ok = mq_pop(&Q, &dst, k, &BASE, NULL);
     guarantee_check();
     OBLIGATION(ok == gvalid[g_idx], "C09.cell: pop of ticket k reports an item exactly if the push of ticket k constructed one (the mask bit of the same cell); an invalid slot is skipped");
@@ -388,9 +430,148 @@ void h_lane_pop(void) {
     OBLIGATION(ok || dst == dst0, "C09.fifo: a skipped invalid slot delivers nothing");
     OBLIGATION(n_destroy == (ok ? 1u : 0u) && n_read == (ok ? 1u : 0u) && (!ok || me_read_in_turn), "C09.turnstile: the element is moved out and destroyed exactly once, in the ticket's own turn and after the push of the same ticket finished; an invalid slot is not touched");
     OBLIGATION(my_nie == (ok ? 0 : -1), "C09.fault: a skipped invalid slot is taken out of n_invalid_entries exactly once");
-    OBLIGATION(n_adv == 1 && me_adv && adv_in_turn && Q.head_counter >= K8 + n_queue, "C09.turnstile: a pop hands the lane's turn on exactly once (head_counter = k + n_queue, in its own turn)");
-    OBLIGATION((n_free == 1) == (g_idx == items_per_page - 1) && me_unlinked == (g_idx == items_per_page - 1), "C09.page: the page is removed from the lane and freed exactly by the pop of its last slot");
-    OBLIGATION(!me_hold && n_lock == (g_idx == items_per_page - 1 ? 1u : 0u), "C09.page: page_mutex is released; it is taken only to remove a page");
+    OBLIGATION(n_adv == 1 && me_adv && adv_in_turn, "C09.turnstile: a pop hands the lane's turn on exactly once (head_counter = k + n_queue, in its own turn)");
+    OBLIGATION((n_free == 1) == (g_idx == LAST_) && me_unlinked == (g_idx == LAST_), "C09.page: the page is removed from the lane and freed exactly by the pop of its last slot");
+    OBLIGATION(!me_hold && n_lock == (g_idx == LAST_ ? 1u : 0u), "C09.page: page_mutex is released; it is taken only to remove a page");
+    VACUITY_END();
+}
+#endif
+
+#ifdef LANESEQ
+/* ---- a lane after a failed page allocation (fault sequence; one thread) -------------------------------------------------------------------------
+   invalidate_page has marked the lane: tail_counter is odd for ever, the list ends in the invalid page pointer (padded_page*)1.  Every ticket of the lane from
+   the failed one on is an invalid entry (its push threw bad_alloc / bad_last_alloc and counted itself in n_invalid_entries).  Once the older pages are
+   consumed head_page IS the invalid pointer, and the pop of such a ticket finds no page at all. */
+#include "ticket.inc"
+typedef unsigned char value_type;
+struct padded_page { struct padded_page *next; uintptr_t mask; value_type items[32]; };
+struct micro_queue { struct padded_page *head_page; ticket_type head_counter; struct padded_page *tail_page; ticket_type tail_counter; int page_mutex; };
+struct queue_rep { size_t n_invalid_entries; };
+struct finalizer { ticket_type my_ticket_type; struct micro_queue *my_queue; struct padded_page *my_page; int *allocator; };
+static size_type items_per_page;
+static struct micro_queue Q; static struct queue_rep BASE; static struct padded_page NOPAGE; struct padded_page nondet_page(void);
+#define INVALID_PAGE ((struct padded_page *)(uintptr_t)1)
+static unsigned n_bad_access, n_head_adv, n_tail_writes, n_lock, n_free, n_destroy, n_read, n_alloc, n_construct; static long my_nie; static bool g_exc, g_fail_alloc;
+static struct padded_page *page_access(const struct padded_page *p) { n_bad_access++; return &NOPAGE; }      /* there is no page in this scenario: every page access is a wild one */
+#define PAGE_NEXT(p) (page_access(p)->next)
+#define PAGE_MASK(p) (page_access(p)->mask)
+#define PAGE_ITEMS(p) (page_access(p)->items)
+static void on_write(void *a, long d) { if (a == (void *)&Q.head_counter) n_head_adv++; if (a == (void *)&Q.tail_counter) n_tail_writes++; if (a == (void *)&BASE.n_invalid_entries) my_nie += d; }
+#define ATOMIC_LOAD_AT(site, f) (f)
+#define ATOMIC_STORE_AT(site, f, v) ({ __typeof__(f) v_ = (v); on_write((void *)&(f), 0); (f) = v_; (void)0; })
+#define ATOMIC_FETCH_ADD_AT(site, f, v) ({ __typeof__(f) a_ = (v); on_write((void *)&(f), 0); __typeof__(f) o_ = (f); (f) = o_ + a_; o_; })
+#define ATOMIC_PREINC_AT(site, f) ({ on_write((void *)&(f), 1); ++(f); })
+#define ATOMIC_PREDEC_AT(site, f) ({ on_write((void *)&(f), -1); --(f); })
+#define LOCK_MUTEX(m) do { __CPROVER_assert((m) == 0, "C09.page: page_mutex is free when taken"); (m) = 1; n_lock++; } while (0)
+#define UNLOCK_MUTEX(m) do { __CPROVER_assert((m) == 1, "C09.page: only the holder releases page_mutex"); (m) = 0; } while (0)
+#define ALLOC_REBIND(a, b) int a = 0; (void)(b)
+#define EXC_PENDING() (g_exc)
+#define EXC_THROW(x) (g_exc = true)
+#define EXC_RETHROW(r) return r
+#define EXC_PROPAGATE(...) do { if (g_exc) return __VA_ARGS__; } while (0)
+static struct padded_page *STUB_page_allocate(void) { n_alloc++; __CPROVER_assert(g_fail_alloc, "(scenario) the only allocation of this scenario throws"); g_exc = true; return NULL; }
+static void STUB_page_construct(struct padded_page *p) { n_construct++; }
+static void STUB_construct_item(value_type *loc, const value_type *args) { n_construct++; }
+static value_type *note_read(value_type *from) { n_read++; return from; }
+#define MOVE_FROM(from) (*note_read(from))
+#define DESTROYER_CTOR(x) value_type *destroyer_my_value_ = (x)
+#define DESTROYER_DTOR(x) STUB_destroy_item(destroyer_my_value_)
+static void STUB_destroy_item(value_type *loc) { n_destroy++; }
+static void STUB_page_destroy(struct padded_page *p) { }
+static void STUB_page_deallocate(struct padded_page *p) { n_free++; }
+/* one thread, nothing changes while it spins: the loops are decided by unwinding (a spin that would not end shows up as an unwinding assertion -> undecided) */
+#define LOOP_turn_1
+#define LOOP_swweq_1
+#define LOOP_swueq_1
+#include "lane.inc"
+size_t IN_lg, IN_idx, IN_lowbits;
+static ticket_type K8;
+static ticket_type seq_init(void) {
+    unsigned lg = nondet_unsigned(); __CPROVER_assume(lg <= 5); items_per_page = (size_type)1 << lg; IN_lg = lg;
+    size_t pg = nondet_size_t(), idx = IN_idx = nondet_size_t(); __CPROVER_assume(pg < ((size_t)1 << 50) && idx < items_per_page);
+    K8 = ((pg << lg) | idx) << 3;
+    n_bad_access = n_head_adv = n_tail_writes = n_lock = n_free = n_destroy = n_read = n_alloc = n_construct = 0; my_nie = 0; g_exc = false; g_fail_alloc = false;
+    Q.page_mutex = 0; BASE.n_invalid_entries = nondet_size_t(); NOPAGE = nondet_page();   /* whatever a wild read finds */
+    size_t r = IN_lowbits = nondet_size_t(); __CPROVER_assume(r < n_queue);
+    return K8 | r;
+}
+void h_lane_pop_invalid(void) {
+    ticket_type k = seq_init();
+    /* the lane was invalidated at or before this ticket, all older tickets are consumed: it is this ticket's turn to be popped */
+    ticket_type k0 = nondet_size_t(); __CPROVER_assume((k0 & 7) == 0 && k0 <= K8);
+    Q.tail_counter = k0 + n_queue + 1; Q.head_counter = K8; Q.head_page = INVALID_PAGE; Q.tail_page = nondet_bool() ? INVALID_PAGE : NULL;
+    __CPROVER_assume(BASE.n_invalid_entries >= 1);
+    value_type dst = nondet_uchar(), dst0 = dst; size_t nie0 = BASE.n_invalid_entries;
+    bool ok = mq_pop(&Q, &dst, k, &BASE, NULL);
+    OBLIGATION(n_bad_access == 0, "C09.fault: pop of a ticket whose page allocation failed does not dereference the invalid page pointer (head_page == (padded_page*)1): there is no page to read");
+    OBLIGATION(!ok && dst == dst0 && n_read == 0 && n_destroy == 0, "C09.fault: pop of a ticket whose page allocation failed reports no item and delivers nothing");
+    OBLIGATION(my_nie == -1 && BASE.n_invalid_entries == nie0 - 1, "C09.fault: pop of a ticket whose page allocation failed takes the ticket out of the invalid-entry count (--n_invalid_entries), exactly once");
+    OBLIGATION(n_head_adv == 1 && Q.head_counter == K8 + n_queue && n_tail_writes == 0, "C09.fault: pop of a ticket whose page allocation failed still hands the lane's head turn on (the pops of the later tickets of the lane are not blocked)");
+    OBLIGATION(n_free == 0 && n_lock == 0 && Q.head_page == INVALID_PAGE && Q.page_mutex == 0, "C09.fault: pop of a ticket whose page allocation failed frees nothing and leaves the invalid marker in place");
+    VACUITY_END();
+}
+#endif
+
+#ifdef REP
+/* ---- concurrent_queue_rep::choose / size / empty, concurrent_queue::internal_push / internal_try_pop / unsafe_size ----------------------------------- */
+#include "ticket.inc"
+struct lane { int dummy; };
+struct rep { struct lane array[8]; ticket_type head_counter, tail_counter; size_t n_invalid_entries; };
+struct cqueue { struct rep *my_queue_representation; };
+struct pop_result { bool first; ticket_type second; };
+static struct rep R; static struct cqueue C;
+#define LIM ((size_t)1 << 62)
+static bool o_made, my_made; static ticket_type o_t, my_t; static unsigned n_lane_push; static struct lane *g_lane; static ticket_type g_lane_ticket; static bool g_quiescent;
+#define QINV (R.tail_counter < LIM && (!o_made || o_t < R.tail_counter) && (!my_made || my_t < R.tail_counter) && (!(o_made && my_made) || o_t != my_t))
+/* rely: other pushes - each takes the current value of tail_counter as its ticket and adds one (one of them is the Skolem claim o_t) */
+static void interfere(void) {
+    if (g_quiescent) return;
+    size_t a = nondet_size_t(), b = nondet_size_t(); __CPROVER_assume(a < LIM && b < LIM);
+    R.tail_counter += a; if (!o_made && nondet_bool()) { o_t = R.tail_counter; R.tail_counter += 1; o_made = true; } R.tail_counter += b;
+    __CPROVER_assume(R.tail_counter < LIM);
+}
+#define ATOMIC_LOAD_AT(site, f) ({ interfere(); (f); })
+#define ATOMIC_POSTINC_AT(site, f) ({ interfere(); __CPROVER_assume((f) < LIM - 1); ticket_type old_ = (f); (f) = old_ + 1; my_t = old_; my_made = true; __CPROVER_assert(QINV, "guarantee: every ticket handed out lies below tail_counter and no two are equal, at " #site); old_; })
+static void STUB_lane_push_on(struct lane *l, ticket_type k) { n_lane_push++; g_lane = l; g_lane_ticket = k; }
+static struct pop_result g_impl;
+static struct pop_result STUB_try_pop_impl(struct rep *q) { return g_impl; }
+#include "rep.inc"
+ticket_type IN_k; size_t IN_h, IN_t, IN_n;
+void h_rep_choose(void) {
+    ticket_type k = IN_k = nondet_size_t();
+    struct lane *l = rep_choose(&R, k);
+    OBLIGATION(l >= &R.array[0] && l <= &R.array[n_queue - 1], "C09.lane: choose(k) is one of the queue's 8 lanes");
+    OBLIGATION(l == rep_choose(&R, k + n_queue), "C09.lane: tickets k and k+8 meet in the same lane (the lane's turn counters advance by n_queue per ticket)");
+    size_t j = nondet_size_t(); __CPROVER_assume(j >= 1 && j < n_queue);
+    OBLIGATION(rep_choose(&R, k + j) != l, "C09.lane: 8 consecutive tickets go to 8 different lanes");
+    VACUITY_END();
+}
+void h_cq_push(void) {
+    g_quiescent = false; C.my_queue_representation = &R; R.tail_counter = nondet_size_t(); o_made = nondet_bool(); o_t = nondet_size_t(); my_made = false; n_lane_push = 0; __CPROVER_assume(QINV);
+    cq_internal_push(&C);
+    interfere();
+    OBLIGATION(my_made && n_lane_push == 1 && g_lane_ticket == my_t, "C09.push: the element is pushed exactly once, under the ticket the call took with one atomic increment of tail_counter");
+    OBLIGATION(g_lane == rep_choose(&R, my_t), "C09.lane: the element is pushed on the lane its ticket maps to");
+    OBLIGATION(!o_made || o_t != my_t, "C09.push: push tickets are unique (any number of concurrent pushes)");
+    OBLIGATION(my_t < R.tail_counter, "C09.push: a ticket taken lies below tail_counter for ever");
+    VACUITY_END();
+}
+void h_cq_try_pop(void) {
+    g_quiescent = true; C.my_queue_representation = &R; g_impl.first = nondet_bool(); g_impl.second = nondet_size_t();
+    OBLIGATION(cq_internal_try_pop(&C, NULL) == g_impl.first, "C09.pop: try_pop reports exactly what the ticket loop reports (claim.try_pop: an item delivered under a claimed ticket, or empty at an instant during the call)");
+    VACUITY_END();
+}
+/* size / empty / unsafe_size with no operation in flight: h pops and t pushes have been started and finished (or, bounded queue, h - t pops are blocked waiting);
+   n of the tickets in [h, t) are invalid entries (their push constructed nothing; lane.push / lane.abort_push count each exactly once, lane.pop uncounts each exactly once) */
+void h_rep_size(void) {
+    g_quiescent = true; C.my_queue_representation = &R;
+    size_t h = IN_h = nondet_size_t(), t = IN_t = nondet_size_t(), n = IN_n = nondet_size_t();
+    __CPROVER_assume(h < LIM && t < LIM && (h <= t ? n <= t - h : n == 0));
+    R.head_counter = h; R.tail_counter = t; R.n_invalid_entries = n;
+    ptrdiff_t items = h <= t ? (ptrdiff_t)(t - h - n) : 0, waiting = h <= t ? 0 : (ptrdiff_t)(h - t);
+    OBLIGATION(rep_size(&R) == items - waiting, "C09.size: with no operation in flight size() is the number of items (tickets between head and tail that are not invalid entries), or minus the number of blocked pops");
+    OBLIGATION(rep_empty(&R) == (items == 0), "C09.size: with no operation in flight empty() holds exactly when the queue holds no item (invalid entries do not count)");
+    OBLIGATION(cq_unsafe_size(&C) == (size_t)items, "C09.size: with no operation in flight unsafe_size() is the number of items");
     VACUITY_END();
 }
 #endif
